@@ -11,7 +11,8 @@ name: expand_bounds
 define: VERIF_EXPAND_ANNOT, VERIF_EXPAND_PSTUBS, VERIF_OWN_STRLEN, VERIF_OWN_STRCMP, U_PAD=0
 src: conf.c
 enforce: spifconf_shell_expand
-replace: builtin_random, builtin_exec, builtin_get, builtin_put, builtin_dirscan, builtin_version, builtin_appname
+replace: builtin_exec
+giflags: --restrict-function-pointer spifconf_shell_expand.function_pointer_call.1/vb_any
 backend: sat
 loops: 1
 timeout: 600
@@ -49,23 +50,34 @@ spif_bool_t spiftool_safe_strncpy(spif_charptr_t dest, const spif_charptr_t src,
     return n <= (size_t) size - 1 ? TRUE : FALSE;
 }
 
-/* every built-in: NULL or a fresh heap string of exactly vg_sl2 characters (registered), whose byte at
- * the ghost index vg_q is not vg_fb; may change the variable store */
-#define BUILTIN_CONTRACT(f) \
-static spif_charptr_t f(spif_charptr_t param) \
-__CPROVER_assigns(spifconf_vars, vg_so2, vg_sl2) \
-__CPROVER_ensures(__CPROVER_return_value == NULL || \
-                  (vg_sl2 <= VCAP && __CPROVER_is_fresh(__CPROVER_return_value, vg_sl2 + 1) && \
-                   __CPROVER_return_value[vg_sl2] == 0 && (vg_sl2 == 0 || __CPROVER_return_value[0] != 0) && \
-                   vg_so2 == __CPROVER_return_value)) \
+/* built-ins.  The dispatch  (builtins[k].ptr)(Command)  is restricted (goto-instrument
+ * --restrict-function-pointer) to the verification built-in vb_any below, and the table precondition says
+ * that every registered pointer is vb_any: an abstract built-in that stands for all seven real ones and for
+ * user-registered ones.  It returns NULL or a fresh heap string of exactly vg_sl2 characters (registered with
+ * the strlen stub) whose byte at the ghost index vg_q is not vg_fb, and may change the variable store.
+ * builtin_exec (called directly for back-quotes) is represented by a declared contract with the same
+ * postcondition. */
+static spif_charptr_t vb_any(spif_charptr_t param)
+{
+    spifconf_vars = nondet_ptr();
+    if (nondet_bool()) return (spif_charptr_t) NULL;
+    size_t n = nondet_size_t();
+    __CPROVER_assume(n <= VCAP);
+    char *r = malloc(n + 1);
+    r[n] = 0;
+    __CPROVER_assume(n == 0 || r[0] != 0);
+    __CPROVER_assume(!(vg_q < n) || r[vg_q] != vg_fb);
+    vg_so2 = r; vg_sl2 = n;
+    return r;
+}
+static spif_charptr_t builtin_exec(spif_charptr_t param)
+__CPROVER_assigns(vg_so2, vg_sl2)
+__CPROVER_ensures(__CPROVER_return_value == NULL ||
+                  (vg_sl2 <= VCAP && __CPROVER_is_fresh(__CPROVER_return_value, vg_sl2 + 1) &&
+                   __CPROVER_return_value[vg_sl2] == 0 && (vg_sl2 == 0 || __CPROVER_return_value[0] != 0) &&
+                   (!(vg_q < vg_sl2) || __CPROVER_return_value[vg_q] != vg_fb) &&
+                   vg_so2 == __CPROVER_return_value))
 ;
-BUILTIN_CONTRACT(builtin_random)
-BUILTIN_CONTRACT(builtin_exec)
-BUILTIN_CONTRACT(builtin_get)
-BUILTIN_CONTRACT(builtin_put)
-BUILTIN_CONTRACT(builtin_dirscan)
-BUILTIN_CONTRACT(builtin_version)
-BUILTIN_CONTRACT(builtin_appname)
 
 /* ---- the function under proof ---------------------------------------------------------------------- */
 /* the built-in table: 0..2 registered entries with heap names (registered lengths), then the NULL name */
@@ -73,8 +85,7 @@ BUILTIN_CONTRACT(builtin_appname)
     (builtin_idx < 1 || (vg_bl0 <= 64 && __CPROVER_is_fresh(builtins[0].name, vg_bl0 + 1) && builtins[0].name[vg_bl0] == 0 && vg_bn0 == builtins[0].name)) && \
     (builtin_idx < 2 || (vg_bl1 <= 64 && __CPROVER_is_fresh(builtins[1].name, vg_bl1 + 1) && builtins[1].name[vg_bl1] == 0 && vg_bn1 == builtins[1].name)) && \
     builtins[builtin_idx].name == NULL)
-#define BLT_PTR_OK(p) ((p) == builtin_random || (p) == builtin_exec || (p) == builtin_get || (p) == builtin_put || \
-                       (p) == builtin_dirscan || (p) == builtin_version || (p) == builtin_appname)
+#define BLT_PTR_OK(p) ((p) == vb_any)
 
 spif_charptr_t spifconf_shell_expand(spif_charptr_t s)
 __CPROVER_requires(__CPROVER_is_fresh(s, CONFIG_BUFF))
